@@ -154,7 +154,9 @@ SEC_NAMES = ["moleculetype", "atoms", "bonds", "constraints", "pairs", "angles",
 WORDS = ["gb_27", "ga_15", "0.153", "1.25e+03", "C1", "OW", "SOL", "1", "2", "3", "17", "0.0", "-0.5",
          "gd_34", "POSRES", "HW1", "x", "#notpp", "ab", "1_0", "+4"]
 COMMENTS = ["", " ", "   ", " a comment", "comment", " qtot 1.0", " one ; two", ";", ";; double",
-            " # hash in comment", "#hash", " [ not a section", " tab\there ", "\ttab"]
+            " # hash in comment", "#hash", " [ not a section", " tab\there ", "\ttab",
+            # bracketed words INSIDE comments (units, references, a commented-out directive): not section headers
+            " ai aj funct b0 [nm] kb [kJ mol-1 nm-2]", "[ dihedrals ]", " [ref]", " see [bonds] above", "[x]"]
 PP = ["#include \"forcefield.itp\"", "#ifdef POSRES", "#endif", "#define X 1", "#ifndef FLEX", "#else",
       "#", "# spaced"]
 
@@ -276,9 +278,14 @@ def gen_itp_text(rng, big=False) -> dict:
             name = "dihedrals"
         if name in names:
             feats.append("repeated-section")
+        if name not in ("moleculetype", "atoms") and rng.random() < 0.12:
+            # a directive spelled with capitals ("[ Bonds ]"): for this library simply ANOTHER section name; it must
+            # come back from a rewrite under exactly that spelling (seed C16-6: name lower-cased on output)
+            name = rng.choice([name.capitalize(), name.upper(), name[:1] + name[1:].capitalize()])
+            feats.append("capitalised-section-name")
         names.append(name)
         lines.append(header_line(rng, name))
-        lines += section_body(rng, name, rng.randint(0, 40 if big else 5), state)
+        lines += section_body(rng, name.lower(), rng.randint(0, 40 if big else 5), state)
     text = "\n".join(lines)
     if rng.random() < 0.8:
         text += "\n"
